@@ -492,6 +492,34 @@ fn binary_case(cx: &mut CaseCtx, input: Input, cfg: &GenCfg) -> CaseResult {
         a.stderr_text(),
         c.stderr_text()
     );
+    // the warnings that are shown: the same multiset in both arrangements (accepted programs)
+    if a.code == Some(0) && c.code == Some(0) {
+        let shown = |r: &proc::RunResult| -> Vec<String> {
+            let mut v: Vec<String> = if json_mode {
+                r.stderr_text()
+                    .lines()
+                    .filter_map(|l| serde_json::from_str::<serde_json::Value>(l).ok())
+                    .filter(|j| j["severity"] == "warning")
+                    .map(|j| format!("{} {}", j["error_code"], j["message"]))
+                    .collect()
+            } else {
+                r.stderr_text().lines().filter(|l| l.starts_with("warning [")).map(|l| l.to_owned()).collect()
+            };
+            v.sort();
+            v
+        };
+        let (wa, wc) = (shown(&a), shown(&c));
+        check!(
+            wa == wc,
+            "binary/warnings-shown-depend-on-arrangement",
+            "identity order shows {} warnings, order {perm:?} refs {refs:#b} shows {}\n--- identity ---\n{}\n--- other ---\n{}",
+            wa.len(),
+            wc.len(),
+            a.stderr_text(),
+            c.stderr_text()
+        );
+        cx.label_if(!wa.is_empty(), "binary-warnings-compared");
+    }
     if let (Some(ra), Some(rc)) = (&a_req, &c_req) {
         let (da, _) = decode_and_interpret(ra).map_err(|e| Fail::new("binary/undecodable-request", format!("{e:?}")))?;
         let (dc, _) = decode_and_interpret(rc).map_err(|e| Fail::new("binary/undecodable-request", format!("{e:?}")))?;
@@ -517,7 +545,7 @@ impl Check for C15 {
         "C15"
     }
     fn rule(&self) -> String {
-        "families: in-process = proptest choice sequences -> multi-file programs (1..4 files, cross-file and cross-module references, aliases, inheritance, re-opened modules; valid, with warnings, or with one injected error) written to real files and compiled with compile_from_options in every permutation of the files and every source/reference assignment: acceptance, per-path observed content and the multiset of warnings (code, level, message, span) must not change, also when one file is listed twice (adjacent or apart); collisions = 42 templates (same definition in two files, definition vs nested module of another file, enumerator / field / operation / parameter / return member vs module of another file, preprocessor symbols defined in one file and tested in another, containment cycles spread over files and used from outside; each with and without a variation) in every order and every source/reference assignment; repetition = six texts with several errors of one kind on one element, compiled twelve times in one process (and by sixteen processes): the recorded list is the same every time; binary = the same argv (one generator with five arguments; now and then an extra module-less file at a drawn position) twice in fresh processes (byte-identical stdout, stderr, exit status, generator request) plus one random permutation and reference assignment (acceptance and per-path decoded request content). Non-trivial = >= 2 files".into()
+        "families: in-process = proptest choice sequences -> multi-file programs (1..4 files, cross-file and cross-module references, aliases, inheritance, re-opened modules; valid, with warnings, or with one injected error) written to real files and compiled with compile_from_options in every permutation of the files and every source/reference assignment: acceptance, per-path observed content and the multiset of warnings (code, level, message, span) must not change, also when one file is listed twice (adjacent or apart); collisions = 42 templates (same definition in two files, definition vs nested module of another file, enumerator / field / operation / parameter / return member vs module of another file, preprocessor symbols defined in one file and tested in another, containment cycles spread over files and used from outside; each with and without a variation) in every order and every source/reference assignment; repetition = six texts with several errors of one kind on one element, compiled twelve times in one process (and by sixteen processes): the recorded list is the same every time; binary = the same argv (one generator with five arguments; now and then an extra module-less file at a drawn position) twice in fresh processes (byte-identical stdout, stderr, exit status, generator request) plus one random permutation and reference assignment (acceptance, the multiset of warnings shown, per-path decoded request content). Non-trivial = >= 2 files".into()
     }
     fn assumptions(&self) -> Vec<String> {
         vec!["only the order of files and of reports may change; error diagnostics of rejected programs are not compared across arrangements (only that they are rejected)".into()]
